@@ -1,4 +1,5 @@
 import html
+import itertools
 from collections import defaultdict
 from functools import cached_property
 
@@ -10,6 +11,9 @@ from genlm.grammar.linear import WeightedGraph
 
 # EPSILON = "ε"
 EPSILON = ""
+
+# generator of fresh state names for `WFSA.to_bytes`
+_BYTE_STATE_IDS = itertools.count()
 
 
 class WFSA:
@@ -542,13 +546,10 @@ class WFSA:
         # when multiple characters emanating from the same state share a byte prefix.
         byte_wfsa = self.spawn(keep_init=True, keep_stop=True)
 
-        state_counter = 0
-
+        # The chain states must be fresh across calls as well: the byte
+        # automata of several terminals are merged into one grammar.
         def get_new_state():
-            nonlocal state_counter
-            state = f"_bytes{state_counter}"
-            state_counter += 1
-            return state
+            return f"_bytes{next(_BYTE_STATE_IDS)}"
 
         for i, a, j, w in self.arcs():
             if a == EPSILON:
